@@ -130,7 +130,50 @@ class C07(Prop):
             for j, (now, before) in enumerate(zip(row, snaps)):
                 if now != before and drift is None:
                     drift = f"after {op['t']} on object {i}, object {j} changed: {before} -> {now}"
-        return {"ops": ops, "rows": rows, "snaps": snaps, "drift": drift, "fresh": fresh}
+        # independence of siblings: a derivation's result depends on its receiver and arguments only, so repeating every operation at
+        # the END of the history (after all the other objects were derived from the same ancestors) must give the same observation
+        influence = None
+        base = len(case["nodes"]) + 1
+        for r, op in enumerate(ops):
+            if op["t"] in ("readInputs", "readHash"):
+                continue
+            try:
+                again = self._reapply(op, objs)
+            except Exception as e:  # noqa: BLE001
+                influence = f"{op} on object {op['i']} worked when first applied, raises {type(e).__name__} when repeated after the later derivations"
+                break
+            o2 = observe(again)
+            if o2 != snaps[base + r]:
+                influence = (f"{op} on object {op['i']} gives a different object when repeated after the later derivations from the same ancestor: "
+                             f"{snaps[base + r]} -> {o2}")
+                break
+        return {"ops": ops, "rows": rows, "snaps": snaps, "drift": drift, "fresh": fresh, "influence": influence}
+
+    @staticmethod
+    def _reapply(op: dict, objs: list) -> Any:
+        recv = objs[op["i"]]
+        t = op["t"]
+        if t == "bind":
+            return recv.bind(**{op["k"]: op["v"]})
+        if t == "unbind":
+            return recv.unbind(op["k"])
+        if t == "select":
+            return recv.select(*op["names"])
+        if t == "withEntrypoint":
+            return recv.with_entrypoint(*op["names"])
+        if t == "asNode":
+            return recv.as_node(name=op["name"])
+        if t == "addNode":
+            return recv.add_nodes(objs[op["j"]])
+        if t == "withName":
+            return recv.with_name(op["name"])
+        if t == "withInputs":
+            return recv.with_inputs(dict(op["pairs"]))
+        if t == "withOutputs":
+            return recv.with_outputs(dict(op["pairs"]))
+        if t == "mapOver":
+            return recv.map_over(*op["names"])
+        raise ValueError(t)
 
     def _apply(self, rng: random.Random, recv: Any, i: int, objs: list, extra: int) -> tuple[dict | None, Any]:
         try:
@@ -221,6 +264,8 @@ class C07(Prop):
             return obs["drift"]
         if obs["fresh"]:
             return obs["fresh"]
+        if obs.get("influence"):
+            return obs["influence"]
         return None
 
     # ---------------------------------------------------------------- model
@@ -297,6 +342,11 @@ def _cmp(io: Any, mo: Any) -> str | None:
         # the model's `bound` is the graph's own binding dict; the implementation's inputs.bound may add surfaced inner bindings
         if not set(map(str, mb)) <= set(map(str, ib)):
             return f"bound: impl {ib} model {mb}"
+        # ... and only those: every other reported binding must sit on an input of a nested-graph node of this graph
+        nested_inputs = {q for a, b in zip(io["graph"], mo["graph"]) if b.get("inner") is not None for q in a["inputs"]}
+        extra = [kv for kv in ib if str(kv) not in set(map(str, mb)) and kv[0] not in nested_inputs]
+        if extra:
+            return f"bound: impl reports {extra} which this graph never bound (own bindings per model: {mb})"
         if io["selected"] != mo["selected"]:
             return f"selected: impl {io['selected']} model {mo['selected']}"
         if io["entry"] != mo["entry"]:
